@@ -7,6 +7,7 @@ From RRSS Require Import Proofs.ParseSound Proofs.GrammarLaws Proofs.LiteralLaws
 From RRSS Require Import Proofs.LexNumbers.
 From RRSS Require Import Proofs.ParseLayout.
 From RRSS Require Import Proofs.LexKeywords.
+From RRSS Require Import Proofs.LexPayloads.
 Import ListNotations.
 Open Scope N_scope.
 
@@ -137,6 +138,12 @@ Theorem C02_word_scanner_kind :
   (match match_keyword (tspell (lr_token r)) with Some k => tid (lr_token r) = k | None => tid (lr_token r) = TWord end) /\
   wstg_ok stg.
 Proof. exact tokenize_word_kind. Qed.
+
+(** "Numbers and string literals denote exactly their written value", for all tokens of any source at once: a
+    number token's value is the parse of its own spelling, a string token's payload is its spelling without the quotes *)
+Theorem C02_literals_denote_their_written_value :
+  forall prof src pts, lex prof src = Ok pts -> Forall (fun pt => payload_ok (pt_tok pt)) pts.
+Proof. exact lex_payloads. Qed.
 
 Print Assumptions C02_expression_in_grammar.
 Print Assumptions C02_program_in_grammar.
